@@ -36,6 +36,9 @@ def gen_c13_random(rnd, tier):
         nrm = [rnd.randint(-3, 3) for _k in range(3)]
         if nrm == [0, 0, 0]:
             nrm = [1, 2, -2]
+        if rnd.random() < 0.25:
+            nrm = [0, 0, 0]
+            nrm[rnd.randint(0, 2)] = rnd.choice((-1, 1, -2))        # exactly along a coordinate axis, either sense
         pr = [8 * sum(a * b for a, b in zip(nrm, v)) for v in vpos]
         dn = rnd.randint(min(pr) - 4, max(pr) + 4)
         if dn % 2 == 0:
